@@ -151,27 +151,32 @@ def runWhile (s : Txt) (p : Char → Bool) (k : Nat) : Nat :=
     | fuel + 1 => if k < s.size && p s[k]! then go fuel (k + 1) else k
   go (s.size + 1) k
 
+/-- `([\d.]+(?:[eE][-+]?\d+)?)\s*$` (MULTILINE) at `j`: the captured group -/
+def numAt (s : Txt) (j : Nat) : Option Txt :=
+  let k := runWhile s isDigitDot j
+  if k == j then none
+  else
+    -- optional exponent, preferred when the rest of the line is blank after it
+    let withExp : Option Nat :=
+      if k < s.size && (s[k]! == 'e' || s[k]! == 'E') then
+        let m := k + 1
+        let m := if m < s.size && (s[m]! == '-' || s[m]! == '+') then m + 1 else m
+        let m2 := runWhile s Char.isDigit m
+        if m2 == m then none else some m2
+      else none
+    match withExp with
+    | some m2 => if blankTail s m2 then some (slice s j m2) else (if blankTail s k then some (slice s j k) else none)
+    | none => if blankTail s k then some (slice s j k) else none
+
+/-- the match attempt of `matchNum` at the occurrence `i` of `kw` -/
+def matchNumAt (s kw : Txt) (neg : Bool) (i : Nat) : Option Txt :=
+  match head s kw i with
+  | none => none
+  | some j0 => numAt s (if neg && j0 < s.size && s[j0]! == '-' then j0 + 1 else j0)
+
 /-- `kw ?= ?-?([\d.]+(?:[eE][-+]?\d+)?)\s*$` (MULTILINE), `neg` = whether `-?` is in the pattern: the captured group -/
 def matchNum (s kw : Txt) (neg : Bool) : Option Txt :=
-  (findAll s kw).findSome? fun i =>
-    match head s kw i with
-    | none => none
-    | some j0 =>
-      let j := if neg && j0 < s.size && s[j0]! == '-' then j0 + 1 else j0
-      let k := runWhile s isDigitDot j
-      if k == j then none
-      else
-        -- optional exponent, preferred when the rest of the line is blank after it
-        let withExp : Option Nat :=
-          if k < s.size && (s[k]! == 'e' || s[k]! == 'E') then
-            let m := k + 1
-            let m := if m < s.size && (s[m]! == '-' || s[m]! == '+') then m + 1 else m
-            let m2 := runWhile s Char.isDigit m
-            if m2 == m then none else some m2
-          else none
-        match withExp with
-        | some m2 => if blankTail s m2 then some (slice s j m2) else (if blankTail s k then some (slice s j k) else none)
-        | none => if blankTail s k then some (slice s j k) else none
+  (findAll s kw).findSome? (matchNumAt s kw neg)
 
 /-- last index `< hi` and `≥ lo` holding a quote -/
 def rfindQuote (s : Txt) (lo hi : Nat) : Option Nat :=
@@ -181,25 +186,29 @@ def rfindQuote (s : Txt) (lo hi : Nat) : Option Nat :=
     | fuel + 1 => if k ≤ lo then none else if s[k - 1]! == '"' then some (k - 1) else go fuel (k - 1)
   go (s.size + 1) (min hi s.size)
 
+/-- greedy `.*` then backtrack: the last quote in `[j, hi)` with a blank tail -/
+def backQuote (s : Txt) (j : Nat) (fuel : Nat) (hi : Nat) : Option Txt :=
+  match fuel with
+  | 0 => none
+  | fuel + 1 =>
+    match rfindQuote s j hi with
+    | none => none
+    | some k => if blankTail s (k + 1) then some (slice s j k) else backQuote s j fuel k
+
+/-- the match attempt of `matchText` at the occurrence `i` of `kw` -/
+def matchTextAt (s kw : Txt) (dotall : Bool) (i : Nat) : Option Txt :=
+  match head s kw i with
+  | none => none
+  | some j0 =>
+    if !(j0 < s.size && s[j0]! == '"') then none
+    else
+      let j := j0 + 1
+      let limit := if dotall then s.size else (match find s (lit "\n") j with | some n => n | none => s.size)
+      backQuote s j (s.size + 1) limit
+
 /-- `kw ?= ?"(.*)"\s*$` with MULTILINE (and DOTALL when `dotall`): the captured group -/
 def matchText (s kw : Txt) (dotall : Bool) : Option Txt :=
-  (findAll s kw).findSome? fun i =>
-    match head s kw i with
-    | none => none
-    | some j0 =>
-      if !(j0 < s.size && s[j0]! == '"') then none
-      else
-        let j := j0 + 1
-        let limit := if dotall then s.size else (match find s (lit "\n") j with | some n => n | none => s.size)
-        -- greedy `.*` then backtrack: the last quote with a blank tail
-        let rec back (fuel : Nat) (hi : Nat) : Option Txt :=
-          match fuel with
-          | 0 => none
-          | fuel + 1 =>
-            match rfindQuote s j hi with
-            | none => none
-            | some k => if blankTail s (k + 1) then some (slice s j k) else back fuel k
-        back (s.size + 1) limit
+  (findAll s kw).findSome? (matchTextAt s kw dotall)
 
 /-- `re.split(kw ?\[, s)`: leftmost non-overlapping occurrences of `kw [` or `kw[` -/
 def splitKw (s kw : Txt) : List Txt :=
@@ -227,6 +236,32 @@ def headerField (hl : List Txt) (k : Nat) : Except Err Txt := do
   let v ← nth? parts 1
   pure (strip v)
 
+/-- one element of `tierData`: the entry after `intervals [` / `points [` -/
+def readEntryLong (isI : Bool) (el : Txt) : Except Err (List String) := do
+  if isI then
+    let s1 ← need (matchNum el (lit "xmin") true)
+    let e1 ← need (matchNum el (lit "xmax") false)
+    let lb ← need (matchText el (lit "text") true)
+    pure [toStr s1, toStr e1, toStr (replace (strip lb) (lit "\"\"") (lit "\""))]
+  else
+    let t1 ← need (matchNum el (lit "number") true)
+    let lb ← need (matchText el (lit "mark") true)
+    pure [toStr t1, toStr (replace (strip lb) (lit "\"\"") (lit "\""))]
+
+/-- the body of the tier loop of `_parseNormalTextgrid` on one `tierTxt` -/
+def readTierLong (tt : Txt) : Except Err RawTier := do
+  let isI := Txt.contains tt (lit "class = \"IntervalTier\"")
+  let d := splitKw tt (lit (if isI then "intervals" else "points"))
+  let hdr := d.headD #[]
+  let els := d.drop 1
+  let name ← need (matchText hdr (lit "name") false)
+  let name := replace name (lit "\"\"") (lit "\"")
+  let st ← need (matchNum hdr (lit "xmin") true)
+  let en ← need (matchNum hdr (lit "xmax") false)
+  let entries ← els.mapM (readEntryLong isI)
+  pure ({ cls := if isI then "IntervalTier" else "TextTier", name := toStr name, xmin := toStr st, xmax := toStr en,
+          entries := entries } : RawTier)
+
 /-- `_parseNormalTextgrid(data)` -/
 def parseLong (data0 : Txt) : Except Err RawTg := do
   let data := replace data0 (lit "\r\n") (lit "\n")
@@ -240,27 +275,7 @@ def parseLong (data0 : Txt) : Except Err RawTg := do
     let tgMin ← headerField hl 3
     let tgMax ← headerField hl 4
     let tierList := (splitKw rest (lit "item")).drop 1
-    let tiers ← tierList.mapM fun tt => do
-      let isI := Txt.contains tt (lit "class = \"IntervalTier\"")
-      let d := splitKw tt (lit (if isI then "intervals" else "points"))
-      let hdr := d.headD #[]
-      let els := d.drop 1
-      let name ← need (matchText hdr (lit "name") false)
-      let name := replace name (lit "\"\"") (lit "\"")
-      let st ← need (matchNum hdr (lit "xmin") true)
-      let en ← need (matchNum hdr (lit "xmax") false)
-      let entries ← els.mapM fun el => do
-        if isI then
-          let s1 ← need (matchNum el (lit "xmin") true)
-          let e1 ← need (matchNum el (lit "xmax") false)
-          let lb ← need (matchText el (lit "text") true)
-          pure [toStr s1, toStr e1, toStr (replace (strip lb) (lit "\"\"") (lit "\""))]
-        else
-          let t1 ← need (matchNum el (lit "number") true)
-          let lb ← need (matchText el (lit "mark") true)
-          pure [toStr t1, toStr (replace (strip lb) (lit "\"\"") (lit "\""))]
-      pure ({ cls := if isI then "IntervalTier" else "TextTier", name := toStr name, xmin := toStr st, xmax := toStr en,
-              entries := entries } : RawTier)
+    let tiers ← tierList.mapM readTierLong
     pure ⟨toStr tgMin, toStr tgMax, tiers⟩
 
 /-- `parseTextgridStr` for text that is not JSON: format sniffing, then `_removeBlanks` -/
